@@ -143,11 +143,16 @@ def hSpecLoader (toks : List String) : Option String := do
   let [n, bs, sh] := hd | none
   pure s!"ok={bit (Rl4co.Spec.Ops.loaderOk n.toNat bs.toNat (sh != 0) (natsOf ids) (natsOf sizes) (natsOf ex))}"
 
+/-- `ops.spec.fetch | requested | delivered | extraIds` -/
+def hSpecFetch (toks : List String) : Option String := do
+  let [_, rq, dl, ex] ← parseSections toks | none
+  pure s!"ok={bit (Rl4co.Spec.Ops.fetchOk (natsOf rq) (natsOf dl) (natsOf ex))}"
+
 def handlers : List (String × (List String → Option String)) :=
   [("ops.batchify", hBatchify), ("ops.unbatchify", hUnbatchify), ("ops.rearrange", hRearrange),
    ("ops.gather", hGather), ("ops.bestactions", hBestActions), ("ops.numstarts", hNumStarts),
    ("ops.starts", hStarts), ("ops.opstarts", hOpStarts), ("ops.samplen", hSampleN), ("ops.selectbest", hSelectBest),
    ("ops.loader", hLoader), ("ops.gatherdefault", hGatherDefault), ("ops.spec.expand", hSpecExpand), ("ops.spec.regroup", hSpecRegroup),
-   ("ops.spec.starts", hSpecStarts), ("ops.spec.best", hSpecBest), ("ops.spec.loader", hSpecLoader)]
+   ("ops.spec.starts", hSpecStarts), ("ops.spec.best", hSpecBest), ("ops.spec.loader", hSpecLoader), ("ops.spec.fetch", hSpecFetch)]
 
 end Rl4co.Driver.Ops
